@@ -31,7 +31,7 @@ RULE = (
     " Also: replacing the lifetime model object, parameters first given as integers, inadmissible parameters tried and refused, and after every set_prms the held parameters compared with a fresh model's."
 )
 ASSUMPTIONS = [
-    "finite input alphabets (5 driver versions, 9 parameter versions incl. integer, inadmissible and half-invalid ones, 3 lifetime-model swaps); full alphabet to depth 3 (quick) / 4 (thorough), an 11-operation sub-alphabet to depth 4-5 (quick) / 6 (thorough)",
+    "finite input alphabets (5 driver versions, 9 parameter versions incl. integer, inadmissible and half-invalid ones, 3 lifetime-model swaps); full alphabet (21 operations) to depth 3 (thorough: 4 on the uneven grid with two labels), an 11-operation sub-alphabet to depth 4-5",
     "results compared with 1e-12 relative tolerance against a fresh object (same code, no history) given the current driver and the lifetime parameters the model holds at that moment (read through the public prms property)",
     "changing parameters by assigning attributes directly (not through set_prms) is outside the statement",
 ]
@@ -480,15 +480,16 @@ def units(tier, seed):
                         continue
                     d_here = depth if ex == "p2" else min(depth, 4)
                     # full alphabet to depth 3 (quick) / 4 (thorough) from the ready state; deeper over the reduced alphabet
+                    full_depth = 4 if (tier == "thorough" and ex == "p2" and gname == "uneven") else 3
                     if start == "ready":
-                        out.append(dict(mode="stock", kind=kind, dist=dist, grid=gname, start=start, depth=3 if tier == "quick" else 4, extra=ex, npts=1))
-                    out.append(dict(mode="stock", kind=kind, dist=dist, grid=gname, start=start, depth=min(d_here, 6), extra=ex, npts=1, reduced=True))
+                        out.append(dict(mode="stock", kind=kind, dist=dist, grid=gname, start=start, depth=full_depth, extra=ex, npts=1))
+                    out.append(dict(mode="stock", kind=kind, dist=dist, grid=gname, start=start, depth=min(d_here, 5), extra=ex, npts=1, reduced=True))
                     if kind != "simple" and start == "ready" and ex == "p2" and (tier == "thorough" or (ci + gi) % 2 == 0):
-                        out.append(dict(mode="stock", kind=kind, dist=dist, grid=gname, start=start, depth=3 if tier == "quick" else 4, extra=ex, npts=3))
+                        out.append(dict(mode="stock", kind=kind, dist=dist, grid=gname, start=start, depth=3, extra=ex, npts=3))
     sys_combos = [("inflow", "NormalLifetime"), ("stock-lapack", "WeibullLifetime")] if tier == "quick" else [(k, d) for k in dsm_impl.KINDS for d in PRM_VERSIONS if d != "FixedLifetime"]
     for sk, dist in sys_combos:
         for gname in GRIDS:
-            out.append(dict(mode="system", kind=sk, dist=dist, grid=gname, depth=4 if tier == "quick" else 6))
+            out.append(dict(mode="system", kind=sk, dist=dist, grid=gname, depth=4 if tier == "quick" else 5))
     return out
 
 
